@@ -82,3 +82,34 @@ def parser_tree_instance(name, tier, dump=True):
     }
     plain = {'MaxLen': t['maxlen'][tier], 'DumpOn': 'TRUE' if dump else 'FALSE'}
     return consts, plain
+
+
+def btoks(*items):
+    """byte-token alphabet: each item a bytes object"""
+    return tla_set([tla_seq(list(t)) for t in items])
+
+
+BOUNDARY_BYTES = [0x22, 0x41, 0x7f, 0x80, 0x8f, 0x90, 0x9f, 0xa0, 0xbf, 0xc0, 0xc1, 0xc2, 0xdf, 0xe0, 0xe1, 0xec, 0xed, 0xee, 0xef,
+                  0xf0, 0xf1, 0xf3, 0xf4, 0xf5, 0xff]
+
+BYTE_TREES = {
+    # every string of boundary bytes inside a JSON string: Table 3-7 transition cover
+    'utf8': dict(alpha=btoks(*[bytes([b]) for b in BOUNDARY_BYTES]), prefix=b'"', suffix=b'"', opts=STRICT,
+                 maxlen={'quick': 3, 'thorough': 4}),
+    # four-byte sequences: lead F0 / F1 / F4 / F5 with boundary continuation bytes
+    'utf8x4': dict(alpha=btoks(*[bytes([b]) for b in [0x80, 0x8f, 0x90, 0xbf, 0xc0, 0x7f, 0x22]]), prefix=b'"\xf0', suffix=b'"', opts=STRICT,
+                   maxlen={'quick': 4, 'thorough': 5}),
+    'utf8x4b': dict(alpha=btoks(*[bytes([b]) for b in [0x80, 0x8f, 0x90, 0xbf, 0xc0, 0x7f, 0x22]]), prefix=b'"\xf4', suffix=b'"', opts=STRICT,
+                    maxlen={'quick': 4, 'thorough': 5}),
+    # syntax errors versus ill-formed UTF-8: which one is reported (C07), also between tokens
+    'mixed': dict(alpha=btoks(b'[', b']', b'1', b' ', b',', b'"', b'\xff', b'\xc3', b'\xc3\xa9', b'\xe2\x82', b'\xc0\xac', b'\xed\xa0\x80', b'x', b'\xef\xbb\xbf'),
+                  prefix=b'', suffix=b'', opts=STRICT, maxlen={'quick': 4, 'thorough': 6}),
+    'mixedlenient': dict(alpha=btoks(b'"', b'\\uD800', b'\xff', b'\xc3\xa9', b'\xe2\x82', b'x'),
+                         prefix=b'"', suffix=b'', opts=ALLOPTS, maxlen={'quick': 3, 'thorough': 4}),
+}
+
+
+def byte_tree_instance(name, tier):
+    t = BYTE_TREES[name]
+    consts = {'Alphabet': t['alpha'], 'Prefix': tla_seq(list(t['prefix'])), 'Suffix': tla_seq(list(t['suffix'])), 'OptSet': t['opts']}
+    return consts, {'MaxLen': t['maxlen'][tier]}
